@@ -4,7 +4,9 @@
 From Coq Require Import ZArith List Bool Lia.
 From Synnax Require Import Generated.Consts_C10 Cesium.Store Cesium.IndexSearch Cesium.Distance Cesium.Stamp
      Cesium.UnaryIter Cesium.UnaryWrite Cesium.Read Monitors.Mon_C10
-     Cesium.IndexSearchProofs Cesium.UnaryIterViews Cesium.UnaryIterViewsRun Cesium.LegacyWitness.
+     Cesium.IndexSearchProofs Cesium.UnaryIterViews Cesium.UnaryIterViewsRun Cesium.LegacyWitness
+     Cesium.DomIterProofs Cesium.DistanceProofs Cesium.UnaryIterExact Cesium.SliceProofs Cesium.UnaryIterSpec Cesium.UnaryIterRun
+     Cesium.TruthProofs Cesium.ReadProofs Cesium.LayoutCheck.
 Import ListNotations.
 Local Open Scope Z_scope.
 
@@ -50,6 +52,69 @@ Proof.
 Qed.
 Print Assumptions C10_step_view.
 
+(* Step exactness.  [layout_assoc P D] is the stored content of the channel: every data domain
+   paired, sample by sample, with the index stamps of its range.  For every layout in which the
+   index and the data domains are sorted, non-overlapping and non-empty, index stamps ascend
+   inside their domain, and every data domain lies inside one index domain and holds one sample
+   per index stamp of its range ([layout_ok]); for every data type kind, chunk size, valid
+   bounds and EVERY command sequence (seeks, explicit and automatic steps in both directions,
+   SetBounds): after each command that does not report an error, Value() is exactly the stored
+   samples whose stamps lie in View(), in order, and Valid() <-> a series was returned.
+   _partial: layouts in which one data domain spans several contiguous index domains (the index
+   file rolled over inside it) are outside [layout_ok]; they are covered by the correspondence
+   only (the Distance walk over such domains is modelled, see C01 finding F25). *)
+Theorem C10_step_exact_partial : forall P D var chunk b cmds,
+  layout_ok P D -> valid_bounds b -> Forall cmd_ok cmds ->
+  Forall (fun o => o_err o = 0 ->
+            UnaryIterSpec.frame_data (o_frame o) = read_spec (layout_assoc P D) (o_view o) /\
+            o_valid o = negb (match o_frame o with [] => true | _ => false end))
+         (u_run P D var chunk false (u_open b) cmds).
+Proof. exact step_exact_all. Qed.
+Print Assumptions C10_step_exact_partial.
+
+(* the frame of one step, structurally: in order, the series sliced from every domain that
+   overlaps the view, wherever earlier commands left the domain iterator *)
+Theorem C10_step_frame : forall P D var b v i,
+  t_s v < t_e v -> t_s b <= t_s v /\ t_e v <= t_e b -> lay D ->
+  u_view i = v -> di_b (u_di i) = b -> u_err i = None -> u_frame i = [] ->
+  Forall (good P var v) D ->
+  u_frame (fwd_body P D var i) = contribs P var v D /\ u_frame (bwd_body P D var i) = contribs P var v D.
+Proof.
+  intros P D var b v i Hv Hb HD V B E F G. split.
+  - apply (fwd_body_frame P D var b v Hv Hb HD i V B E F G).
+  - apply (bwd_body_frame P D var b v Hv Hb HD i V B E F G).
+Qed.
+Print Assumptions C10_step_frame.
+
+(* the sample offset the iterator picks from a Distance approximation is the number of index
+   stamps in the range, whichever of the two ends fall between samples *)
+Theorem C10_distance_count : forall P k q a t,
+  lay P -> znth P k = Some q -> inc (d_data q) ->
+  t_s (d_tr q) <= a < t_e (d_tr q) -> a <= t <= t_e (d_tr q) ->
+  exists da, distance P (TR a t) true = Ok da /\
+             pick_sample_offset da = cnt_lt t (d_data q) - cnt_lt a (d_data q).
+Proof. intros P k q a t HP Hq Hi Ha Ht. exact (distance_one_domain P k q HP Hq Hi a t Ha Ht). Qed.
+Print Assumptions C10_distance_count.
+
+(* Full traversal: SeekFirst, then forward steps of any spans (explicit and automatic mixed),
+   none reporting an error, until the view reaches the end of the bounds: the values returned,
+   concatenated, are exactly the stored samples of the bounds — each once, in order.
+   _partial: same layout guard; the backward traversal is covered by the correspondence only
+   (and is where the known finding F24 lives). *)
+Theorem C10_full_traversal_partial : forall P D var chunk b steps,
+  layout_ok P D -> valid_bounds b -> Forall fwd_cmd steps ->
+  let os := u_run P D var chunk false (u_open b) (SeekFirst :: steps) in
+  Forall (fun o => o_err o = 0) os ->
+  t_e (o_view (last os (observe (u_open b) true))) = t_e b ->
+  concat (map (fun o => UnaryIterSpec.frame_data (o_frame o)) os) = read_spec (layout_assoc P D) b.
+Proof. exact full_traversal_fwd. Qed.
+Print Assumptions C10_full_traversal_partial.
+
+(* the layout hypothesis is decidable (used to evaluate it on concrete layouts) *)
+Theorem C10_layout_check_sound : forall P D, layout_okb P D = true -> layout_ok P D.
+Proof. exact layout_okb_sound. Qed.
+Print Assumptions C10_layout_check_sound.
+
 (* The stepping code of the pinned upstream tree does not satisfy the statement (finding F1,
    repaired in /repo by e87d2c5; the model's [legacy = false] is the repaired code): automatic
    steps from a view that does not start on a sample return a sample outside the view and
@@ -57,8 +122,8 @@ Print Assumptions C10_step_view.
    step back after the domain iterator was exhausted loses samples.  The same sequences satisfy
    the monitor with the repaired code. *)
 Theorem C10_legacy_steps_refuted :
-  w_ok true 2 w_auto = false /\ w_ok true 2 w_skip = false /\ w_ok true 2 w_back = false /\
-  w_ok false 2 w_auto = true /\ w_ok false 2 w_skip = true /\ w_ok false 2 w_back = true.
+  w_ok true 2 lw_auto = false /\ w_ok true 2 lw_skip = false /\ w_ok true 2 lw_back = false /\
+  w_ok false 2 lw_auto = true /\ w_ok false 2 lw_skip = true /\ w_ok false 2 lw_back = true.
 Proof.
   pose proof legacy_auto_refuted. pose proof legacy_skip_refuted. pose proof legacy_back_refuted.
   pose proof fixed_witnesses_ok. tauto.
@@ -77,10 +142,12 @@ Print Assumptions C10_auto_prev_eof_refuted.
 Definition ex_cmds : list cmd :=
   [SeekFirst; NextAuto; Next 4; Next 20; Prev 9; PrevAuto; SeekLE 31; Next 100; SetBounds (TR 13 33); SeekLast; Prev 5; Prev 100].
 Example C10_nonvacuous :
+  layout_okb w_idx w_dat = true /\ layout_assoc w_idx w_dat = w_truth /\
   valid_bounds w_bounds /\ Forall cmd_ok ex_cmds /\
   w_ok false 2 ex_cmds = true /\
   length (filter (fun o => o_valid o) (w_obs false 2 ex_cmds)) = 7%nat.
 Proof.
+  split; [vm_compute; reflexivity|]. split; [vm_compute; reflexivity|].
   split; [unfold valid_bounds, w_bounds, MINI64, MAXTS; simpl; lia|].
   split; [repeat constructor; unfold valid_bounds, MINI64, MAXTS; simpl; lia|].
   vm_compute. auto.
